@@ -17,20 +17,36 @@ class Obj(object):
 
 
 def rec(*args, **kwargs):
-    CALLS.append(("rec", args, tuple(sorted(kwargs.items(), key=lambda kv: str(kv[0]))), _who()))
+    CALLS.append(("vmod.rec", args, tuple(sorted(kwargs.items(), key=lambda kv: str(kv[0]))), _who()))
     return Obj(len(CALLS))
 
 
 def rec2(*args, **kwargs):
-    CALLS.append(("rec2", args, tuple(sorted(kwargs.items(), key=lambda kv: str(kv[0]))), _who()))
+    CALLS.append(("vmod.rec2", args, tuple(sorted(kwargs.items(), key=lambda kv: str(kv[0]))), _who()))
     return Obj(len(CALLS))
 
 
 def recnone(*args, **kwargs):
-    CALLS.append(("recnone", args, tuple(sorted(kwargs.items(), key=lambda kv: str(kv[0]))), _who()))
+    CALLS.append(("vmod.recnone", args, tuple(sorted(kwargs.items(), key=lambda kv: str(kv[0]))), _who()))
     return None
 
 
 def reclist(*args, **kwargs):
-    CALLS.append(("reclist", args, tuple(sorted(kwargs.items(), key=lambda kv: str(kv[0]))), _who()))
+    CALLS.append(("vmod.reclist", args, tuple(sorted(kwargs.items(), key=lambda kv: str(kv[0]))), _who()))
     return []
+
+
+_MADE = {}
+
+
+def __getattr__(name):
+    """vmod.r1a, vmod.r2s, ...: one recording target per name (provenance markers of the C07 universes)"""
+    if name.startswith("r") and name[1:2].isdigit():
+        if name not in _MADE:
+            def f(*args, __n="vmod." + name, **kwargs):
+                CALLS.append((__n, args, tuple(sorted(kwargs.items(), key=lambda kv: str(kv[0]))), _who()))
+                return Obj(len(CALLS))
+            f.__name__ = name
+            _MADE[name] = f
+        return _MADE[name]
+    raise AttributeError(name)
